@@ -1240,7 +1240,7 @@ class Direct(Scenario):
         if dtype == "pinhole":
             s = _arr("s", n)
             self.syms["s"] = s
-            self.assume += [x.t >= 0 for x in s] + [z3.Or(*[x.t > 0 for x in s])]
+            self.assume += [x.t >= 0 for x in s]     # zero and positive widths may be mixed
         if dtype in ("slit", "oriented"):
             L, W = _arr("L", n), _arr("W", n)
             self.syms.update({"L": L, "W": W})
